@@ -16,6 +16,8 @@ pub enum Step {
     Upto(usize),
     /// The next read returns `ErrorKind::Interrupted`.
     Intr,
+    /// The next `n` reads in a row return `ErrorKind::Interrupted`.
+    IntrN(usize),
     /// The next read returns a hard error (`ErrorKind::Other`).
     Fail,
 }
@@ -44,11 +46,16 @@ impl Schedule {
             steps: &self.steps,
             i: 0,
             cap: self.cap,
+            rep: 0,
             reads: 0,
             eof_reads: 0,
             intr_served: 0,
             fail_served: 0,
         }
+    }
+    /// Length of the longest run of consecutive `Interrupted` in the script.
+    pub fn burst_len(&self) -> Option<usize> {
+        self.steps.iter().filter_map(|s| if let Step::IntrN(n) = s { Some(*n) } else { None }).max()
     }
     pub fn describe(&self) -> String {
         format!("{} [{}]", self.family, self.label)
@@ -67,6 +74,8 @@ pub struct SchedReader<'a> {
     steps: &'a [Step],
     i: usize,
     cap: usize,
+    /// Interrupts already served of the current `IntrN` step.
+    rep: usize,
     pub reads: u64,
     pub eof_reads: u64,
     pub intr_served: u64,
@@ -100,6 +109,24 @@ impl Read for SchedReader<'_> {
                     self.i += 1;
                     self.intr_served += 1;
                     return Err(io::Error::new(io::ErrorKind::Interrupted, "pvh: injected EINTR"));
+                }
+                Some(Step::IntrN(n)) => {
+                    if self.rep < *n {
+                        self.rep += 1;
+                        self.intr_served += 1;
+                        // The three ways std can carry the kind: a bare kind,
+                        // the OS error EINTR, a custom error.  None allocates
+                        // except the last, used once in a while.
+                        return Err(match self.rep % 16 {
+                            1 => io::Error::new(io::ErrorKind::Interrupted, "pvh: injected EINTR"),
+                            #[cfg(target_os = "linux")]
+                            2 | 7 => io::Error::from_raw_os_error(4),
+                            _ => io::Error::from(io::ErrorKind::Interrupted),
+                        });
+                    }
+                    self.rep = 0;
+                    self.i += 1;
+                    continue;
                 }
                 Some(Step::Fail) => {
                     self.i += 1;
@@ -146,6 +173,24 @@ pub fn whole() -> Schedule {
 pub fn byte1() -> Schedule {
     let mut s = Schedule::new("byte1", "1-byte reads");
     s.cap = 1;
+    s
+}
+
+/// Reads of at most `cap` bytes each (the caller's buffer may make them
+/// smaller): fixed-size reads at round and odd sizes.
+pub const READ_CAPS: [usize; 12] = [2, 3, 7, 64, 100, 255, 1024, 4096, 8191, 16384, 65536, 131072];
+
+pub fn capped(cap: usize) -> Schedule {
+    let mut s = Schedule::new("short", format!("every read returns at most {cap} bytes"));
+    s.cap = cap;
+    s
+}
+
+/// Cuts at every multiple of `block` (reads never cross a block boundary).
+pub fn blocks(len: usize, block: usize) -> Schedule {
+    let cuts: Vec<usize> = (1..).map(|i| i * block).take_while(|&c| c < len).collect();
+    let mut s = Schedule::new("short", format!("reads end at every multiple of {block}, {} cuts", cuts.len()));
+    s.steps = cuts_to_steps(&cuts);
     s
 }
 
@@ -279,6 +324,71 @@ pub fn interrupted(kind: usize, cuts: &[usize], len: usize) -> Schedule {
     let mut s = Schedule::new("intr", format!("Interrupted {}, cuts at {:?}", INTR_TEXT[kind.min(3)], short_list(cuts)));
     s.steps = steps;
     s.tag = INTR_KINDS[kind.min(3)];
+    s
+}
+
+/// `Interrupted` before every single read, with 1-byte reads: as many
+/// interrupts as bytes (+1 before EOF), never two in a row.
+pub fn interrupted_each_read(len: usize) -> Schedule {
+    let mut steps = Vec::with_capacity(2 * len + 1);
+    for i in 0..len {
+        steps.push(Step::Intr);
+        steps.push(Step::Upto(i + 1));
+    }
+    steps.push(Step::Intr);
+    let mut s = Schedule::new("intr", format!("Interrupted before each of {len} 1-byte reads and before EOF"));
+    s.cap = 1;
+    s.steps = steps;
+    s.tag = "each-read";
+    s
+}
+
+/// Lengths of the bursts of consecutive `Interrupted` (a caller must retry
+/// every one of them): small counts, round numbers and their neighbours.
+pub const BURSTS: [usize; 34] = [
+    2, 3, 4, 5, 8, 10, 16, 20, 32, 50, 63, 64, 65, 100, 127, 128, 129, 255, 256, 257, 500, 1000, 1023,
+    1024, 1025, 4095, 4096, 4097, 5000, 10_000, 32_768, 65_535, 65_536, 65_537,
+];
+pub const MINI_BURSTS: [usize; 8] = [2, 16, 63, 64, 65, 100, 257, 1000];
+pub const BURST_KINDS: [&str; 3] = ["burst-before", "burst-between", "burst-before-eof"];
+
+/// A burst of `n` consecutive `Interrupted`: kind 0 before the first data
+/// read, 1 between two data reads (after the cut `cuts[which]`, or after the
+/// first byte when there is no cut), 2 after all data, before EOF.
+pub fn burst(kind: usize, n: usize, which: usize, cuts: &[usize], len: usize) -> Schedule {
+    let mut steps = vec![];
+    let place;
+    match kind {
+        0 => {
+            steps.push(Step::IntrN(n));
+            steps.extend(cuts_to_steps(cuts));
+            place = "before the first data read".to_string();
+        }
+        1 => {
+            let at = if cuts.is_empty() { 1.min(len) } else { cuts[which % cuts.len()] };
+            for &c in cuts.iter().filter(|&&c| c < at) {
+                steps.push(Step::Upto(c));
+            }
+            steps.push(Step::Upto(at));
+            steps.push(Step::IntrN(n));
+            for &c in cuts.iter().filter(|&&c| c > at) {
+                steps.push(Step::Upto(c));
+            }
+            place = format!("between the data reads, after byte {at}");
+        }
+        _ => {
+            steps.extend(cuts_to_steps(cuts));
+            steps.push(Step::Upto(len));
+            steps.push(Step::IntrN(n));
+            place = "after all data, before EOF".to_string();
+        }
+    }
+    let mut s = Schedule::new(
+        "intr",
+        format!("{n} consecutive Interrupted {place}, cuts at {:?}", short_list(cuts)),
+    );
+    s.steps = steps;
+    s.tag = BURST_KINDS[kind.min(2)];
     s
 }
 
